@@ -1,5 +1,6 @@
 SPECIFICATION TSpec
 CONSTANT MaxLen = 100
+INVARIANT Inv_Total
 INVARIANT Inv_Bounds
 INVARIANT Inv_Read
 INVARIANT Inv_Cells
